@@ -383,9 +383,10 @@ def unit_add_check_row():
             reg = z3.BoolVal(isinstance(d1, UFDict) and isinstance(names1, UFL))
             if isinstance(d1, UFDict) and isinstance(names1, UFL):
                 reg = z3.And(d1.has(desc), d1.val(desc) == z3.Const("new_check", sort_of(CHK)), names1.length == names0.length + 1, names1.at(names0.length) == desc)
-            return Sym(BOOL, z3.And(desc == st.ghost["cells"][0].z, desc != "", z3.Not(d0.has(desc)), st.ghost["classes"].has(z3.Concat(typ, z3.StringVal("Check"))), built, reg))
+            strip = ex.absfun_s("str_strip", [z3.StringSort()], z3.StringSort())
+            return Sym(BOOL, z3.And(desc == st.ghost["cells"][0].z, desc != "", strip(desc) != "", z3.Not(d0.has(desc)), st.ghost["classes"].has(z3.Concat(typ, z3.StringVal("Check"))), built, reg))
         c = Contract("interface.Cid.add_check_row", setup,
-                returns=[Clause(post, "a-check-is-added-only-with-a-new-non-empty-description-and-a-known-type-built-from-(description,-rule,-declared-field-names,-location)-and-registered-in-declaration-order", props=["C09", "C20"])],
+                returns=[Clause(post, "a-check-is-added-only-with-a-new-description-that-is-not-empty-(nor-blanks-only)-and-a-known-type-built-from-(description,-rule,-declared-field-names,-location)-and-registered-in-declaration-order", props=["C09", "C20"])],
                 raises={"InterfaceError": [Clause("exc._location is not None and exc._location._line == line0", "rejection-located-at-the-current-row", props=["C09"]),
                                            Clause(lambda ex, st: Sym(BOOL, z3.And(st.heap[st.ghost["this"].oid]["_check_names"].length == st.ghost["names0"].length) if isinstance(st.heap[st.ghost["this"].oid]["_check_names"], UFL) else z3.BoolVal(False)), "a-refused-row-registers-nothing", props=["C09"])]},
                 loops={0: Unroll(6)}, expect=["return", "InterfaceError"], n_loops=1, raises_only_props=["C09", "C10"])
